@@ -60,7 +60,7 @@ def c03(run, tier):
     cfg = run.cfg("Gen_C01.cfg", {"MaxNodes": Q(tier, 4, 5)}, "gen01.cfg")
     rep = run.tlc_gen_replay("MC_C01", cfg, "steps", timeout=Q(tier, 300, 1800))
     run.absorb(rep, ORDER_ASPECTS)
-    cfg = run.cfg("Gen_C01.cfg", {"MaxNodes": Q(tier, 4, 4), "EmitFam": '"C01two"'}, "gen01two.cfg")
+    cfg = run.cfg("Gen_C01.cfg", {"MaxNodes": Q(tier, 3, 4), "EmitFam": '"C01two"'}, "gen01two.cfg")
     rep = run.tlc_gen_replay("MC_C01", cfg, "two-steps", timeout=Q(tier, 400, 2400))
     run.absorb(rep, ORDER_ASPECTS)
 
